@@ -20,6 +20,7 @@ package main
 
 import (
 	"encoding/json"
+	"sync"
 
 	"github.com/jrivets/log4g"
 	"verifharness/internal/vh"
@@ -64,6 +65,10 @@ func dispatch(rp replayFile, verbose bool) bool {
 		replayLeak50(rp.Input)
 	case "gaps":
 		replayGaps(rp.Input)
+	case "staleopen":
+		replayStaleOpen(rp.Input)
+	case "collector":
+		replayCollector(rp.Input)
 	default:
 		return false
 	}
@@ -104,19 +109,35 @@ func main() {
 	}
 	replayCorpus()
 	rng := vh.NewRng(args.Seed)
-	// the collector path sleeps a real 5 s: it runs next to the other sections (no hooks, its own server)
-	colDone := make(chan struct{})
-	go func() { defer close(colDone); sectionCollector() }()
-	sectionLineReader(rng.Fork("linereader"))
-	sectionDescs(rng.Fork("descs"))
-	sectionJsonParsers(rng.Fork("jsonparsers"))
+	// Wall time: the sections are mostly sleeps of the code under test (200 ms / 1 s polls, 5 s retry pause), so the ones
+	// that do not interfere run side by side:
+	//   phase 1  scanner, then rotation (many scanners at once), next to collector (5 s pause) and gaps (a handful of
+	//            scanners on their own files); no hooks
+	//   phase 2  the parked schedules race17, recycle29, stale41, leak50 one after the other (hooks and the fd / goroutine
+	//            observation are process-global: no other scanner may run then), next to the unit-level sections
+	//            (linereader, descs, jsonparsers: no scanner, no hook — CPU only)
+	// Every section draws from its own fork of the PRNG, so the order does not change what is generated.
+	var p1 sync.WaitGroup
+	for _, f := range []func(){sectionCollector, sectionGaps} {
+		p1.Add(1)
+		go func(f func()) { defer p1.Done(); f() }(f)
+	}
+	// the two searches run many scanners at once and judge timing (which sync tick saw what): one after the other
 	sectionScanner(rng.Fork("scanner"))
 	sectionRotation(rng.Fork("rotation"))
+	p1.Wait()
+	unitDone := make(chan struct{})
+	go func() {
+		defer close(unitDone)
+		sectionLineReader(rng.Fork("linereader"))
+		sectionDescs(rng.Fork("descs"))
+		sectionJsonParsers(rng.Fork("jsonparsers"))
+	}()
 	sectionRace17(rng.Fork("race17"))
 	sectionRecycle29(rng.Fork("recycle29"))
 	sectionStale41()
+	sectionStaleOpen()
 	sectionLeak50()
-	sectionGaps()
-	<-colDone
+	<-unitDone
 	res.Write(args.Out)
 }
